@@ -241,6 +241,113 @@ def _accessor_uses(f):
     return uses, children_idx
 
 
+def _alternation(rname, tree, f, vname, rel) -> list[Inst]:
+    """(g) a rule that is a pure alternation of tokens (setop: UNION | INTERSECT | MINUS): the visitor, run once per
+    alternative (that token's accessor truthy, the others falsy; a bare `ctx.TOKEN` method object is always
+    truthy), yields a distinct non-None constant for every alternative."""
+    if tree[0] != 'alt' or len(tree[1]) < 2:
+        return []
+    toks = []
+    for sq in tree[1]:
+        if sq[0] == 'seq' and len(sq[1]) == 1 and sq[1][0][0] == 'sym' and sq[1][0][1][0].isupper():
+            toks.append(sq[1][0][1])
+        else:
+            return []
+    ctxn = f.params[1] if len(f.params) > 1 else 'ctx'
+
+    class Unknown(Exception):
+        pass
+
+    def truth(t, A):
+        if isinstance(t, ast.Call) and isinstance(t.func, ast.Attribute) and isinstance(t.func.value, ast.Name) \
+                and t.func.value.id == ctxn and not t.args:
+            return t.func.attr == A
+        if isinstance(t, ast.Attribute) and isinstance(t.value, ast.Name) and t.value.id == ctxn:
+            return True        # a bound method object
+        if isinstance(t, ast.UnaryOp) and isinstance(t.op, ast.Not):
+            return not truth(t.operand, A)
+        if isinstance(t, ast.BoolOp):
+            vals = [truth(v, A) for v in t.values]
+            return all(vals) if isinstance(t.op, ast.And) else any(vals)
+        if isinstance(t, ast.Compare) and len(t.ops) == 1 and isinstance(t.comparators[0], ast.Constant) \
+                and t.comparators[0].value is None and isinstance(t.ops[0], (ast.Is, ast.IsNot)):
+            v = truth(t.left, A)
+            return (not v) if isinstance(t.ops[0], ast.Is) else v
+        raise Unknown()
+
+    def value(e, A):
+        if isinstance(e, ast.IfExp):
+            return value(e.body if truth(e.test, A) else e.orelse, A)
+        if isinstance(e, ast.Constant):
+            return e.value
+        raise Unknown()
+
+    def run_block(stmts, A):
+        for st in stmts:
+            if isinstance(st, ast.Return):
+                return ('ret', value(st.value, A) if st.value is not None else None)
+            if isinstance(st, ast.If):
+                r = run_block(st.body if truth(st.test, A) else st.orelse, A)
+                if r is not None:
+                    return r
+            elif isinstance(st, ast.Expr) and isinstance(st.value, ast.Constant):
+                continue
+            else:
+                raise Unknown()
+        return None
+
+    construct = f'(g) {rname}: every alternative ({"|".join(toks)}) gets its own result'
+    results = {}
+    try:
+        for A in toks:
+            r = run_block(f.node.body, A)
+            results[A] = r[1] if r is not None else None
+    except Unknown:
+        return [Inst(RULE, f.short, construct, 'unproven', msg='visitor is not a chain of accessor tests', file=rel,
+                     line=f.node.lineno, props=PROPS)]
+    none = [A for A, v in results.items() if v is None]
+    dup = [A for A, v in results.items() if v is not None and list(results.values()).count(v) > 1]
+    if none or dup:
+        bad = (none or dup)[0]
+        return [Inst(
+            RULE, f.short, construct, 'violation',
+            msg=(f"for a '{bad}' token {vname} returns {results[bad]!r}"
+                 + (" (no branch is taken)" if none else " (the same as for another alternative)")
+                 + f": results per alternative {results}; the operator written in the source is not the one in "
+                   f"the specification"),
+            file=rel, line=f.node.lineno, props=PROPS)]
+    return [Inst(RULE, f.short, construct, 'ok', msg=str(results), file=rel, line=f.node.lineno, props=PROPS)]
+
+
+def _suffix_order(ctx, rname, tree, f, vname, rel) -> list[Inst]:
+    """(h) postfix suffixes are applied in grammar order: for `part: (...) STAR? type*` the transitive wrapper
+    (STAR) is applied before the type filters, so `x*[T]` is subType(T, transitive(x))."""
+    if rname != 'part':
+        return []
+    ctxn = f.params[1] if len(f.params) > 1 else 'ctx'
+    cfg = ctx.cfg(f)
+    star = typ = None
+    for n in cfg.nodes:
+        a = n.ast
+        if n.kind == 'if' and any(isinstance(x, ast.Call) and isinstance(x.func, ast.Attribute) and x.func.attr == 'STAR'
+                                  for x in ast.walk(a.test)):
+            star = n
+        if n.kind == 'for' and any(isinstance(x, ast.Call) and isinstance(x.func, ast.Attribute)
+                                   and x.func.attr in ('type_', 'type') for x in ast.walk(a.iter)):
+            typ = n
+    construct = '(h) part: STAR is applied before the type filters (grammar order STAR? type*)'
+    if star is None or typ is None:
+        return [Inst(RULE, f.short, construct, 'unproven', msg='STAR test / type loop not recognised', file=rel,
+                     line=f.node.lineno, props=PROPS)]
+    if cfg.dominates(star, typ):
+        return [Inst(RULE, f.short, construct, 'ok', file=rel, line=star.lineno, props=PROPS)]
+    return [Inst(
+        RULE, f.short, construct, 'violation',
+        msg=("the transitive wrapper for '*' is applied after the type filters: 'x*[T]' compiles to "
+             "transitive(subType(T, x)) instead of subType(T, transitive(x))"),
+        file=rel, line=star.lineno, props=PROPS)]
+
+
 def run(ctx) -> list[Inst]:
     prog = ctx.prog
     g4 = os.path.join(prog.repo, 'maltoolbox', 'language', 'compiler', 'mal.g4')
@@ -273,6 +380,8 @@ def run(ctx) -> list[Inst]:
                     file=rel, line=visitor.node.lineno, props=PROPS))
             continue
         uses, children_idx = _accessor_uses(f)
+        insts += _alternation(rname, tree, f, vname, rel)
+        insts += _suffix_order(ctx, rname, tree, f, vname, rel)
         # generated accessors of rules named like Python builtins carry a trailing underscore
         for k in list(uses):
             if k.endswith('_') and k[:-1] in counts:
